@@ -459,8 +459,11 @@ impl Ev {
         for (k, v) in o.events {
             *self.events.entry(k).or_insert(0) += v;
         }
-        for s in o.samples {
-            self.sample(s);
+        // at most two samples from each merged part, so that every part of a multi-part check shows up
+        for s in o.samples.into_iter().take(2) {
+            if self.samples.len() < 10 {
+                self.samples.push(s);
+            }
         }
         for s in o.exhaustive_scopes {
             if !self.exhaustive_scopes.contains(&s) {
